@@ -253,6 +253,7 @@ def r5d(ctx: Ctx) -> list[Ob]:
         it = Interp(ctx.repo)
         it.ramp_products = []  # type: ignore[attr-defined]
         zero_bad: list[str] = []
+        nonzero_bad: list[str] = []
         st = State()
         try:
             built = list(it.construct(ClassV(c), [], {"in_shape": TupleV((IntV(K), IntV(DP1))), "num_folds": IntV(F), "order": mkint(order)}, st, Frame(init, 0)))
@@ -265,6 +266,10 @@ def r5d(ctx: Ctx) -> list[Ob]:
                         s_try = s3.copy()
                         if s_try.assume(("cmp", DP1 - Dim.const(order), ">")):  # the path admits dp1 > order
                             zero_bad.append(" and ".join(s3.assumed[-3:]))
+                        continue
+                    # the converse: where the polynomial has degree < order the derivative is identically zero
+                    if s3.decide(DP1 - Dim.const(order), "<=") is True and not (isinstance(rv, TensorV) and rv.val is not None and rv.val[0][0] == "zeros@"):
+                        nonzero_bad.append(" and ".join(s3.assumed[-3:]))
                         continue
                     if not isinstance(rv, TensorV):
                         continue
@@ -279,8 +284,10 @@ def r5d(ctx: Ctx) -> list[Ob]:
         zinst = f"zero-branch[order={order}]"
         if zero_bad:
             out.append(viol("R5d", c.qualname, zinst, f"forward returns the constant zero on a path where the polynomial has degree >= order (dp1 > order; path: {zero_bad[0]}): the derivative of order k of a degree-k polynomial is the constant k!*a_k, not 0", fwd.loc))
+        elif nonzero_bad:
+            out.append(viol("R5d", c.qualname, zinst, f"on a path with dp1 <= order (degree < order; path: {nonzero_bad[0]}) forward does not return the constant zero: the derivative of order k of a polynomial of degree < k is identically 0, not its last non-zero derivative", fwd.loc))
         else:
-            out.append(ok("R5d", c.qualname, zinst, "the constant zero is returned only when dp1 <= order", fwd.loc))
+            out.append(ok("R5d", c.qualname, zinst, "the constant zero is returned exactly when dp1 <= order", fwd.loc))
         if not prods:
             out.append(unres("R5d", c.qualname, inst, "no product of a coefficient slice with an integer ramp was met (another formulation of the derivative): no verdict", fwd.loc))
             continue
@@ -310,4 +317,84 @@ def r5d(ctx: Ctx) -> list[Ob]:
             out.append(unres("R5d", c.qualname, inst, f"{len(prods)} exponent multiplications for order {order}: the formulation is not step-wise, no verdict", loc))
         else:
             out.append(ok("R5d", c.qualname, inst, f"{len(prods)} step(s): every coefficient of x^n is multiplied by n", loc))
+    return out
+
+
+# ------------------------------------------------------------------------------------------ R5f
+def r5f(ctx: Ctx) -> list[Ob]:
+    """R5f -- a scaled sigmoid maps onto (vmin, vmax).
+
+    ``ScaledSigmoidParameter(vmin, vmax)`` documents 'minimum / maximum output value'.  The torch
+    forward is an affine function ``a * sigmoid(x) + b`` of a quantity in (0, 1): evaluated as a
+    polynomial in the symbols ``vmin``, ``vmax`` and ``S = sigmoid(x)``, it must be affine in S with
+    ``b == vmin`` and ``a + b == vmax`` (the two ends of the range).  ``sigmoid(x) * vmax + vmin``
+    has the range (vmin, vmin + vmax): same shape, same monotonicity, other numbers whenever
+    ``vmin`` is not negligible."""
+    from ..dims import Dim
+
+    q = "cirkit.backend.torch.parameters.nodes.TorchScaledSigmoidParameter"
+    c = ctx.repo.cls(q)
+    fwd = ctx.repo.lookup(c, "forward")
+    if fwd is None:
+        return [unres("R5f", q, "range", "no forward", c.loc)]
+    rets = [r.value for r in walk_no_nested(fwd.node) if isinstance(r, ast.Return) and r.value is not None]
+    ld = LocalDefs(fwd.node)
+    S, VMIN, VMAX = Dim.sym("S"), Dim.sym("vmin"), Dim.sym("vmax")
+
+    def ev(e: ast.AST, depth: int = 0) -> Dim | None:
+        if depth > 8:
+            return None
+        if isinstance(e, ast.Constant) and isinstance(e.value, int):
+            return Dim.const(e.value)
+        if isinstance(e, ast.Constant) and isinstance(e.value, float) and float(e.value).is_integer():
+            return Dim.const(int(e.value))
+        a = is_self_attr(e)
+        if a in ("vmin", "_vmin"):
+            return VMIN
+        if a in ("vmax", "_vmax"):
+            return VMAX
+        if isinstance(e, ast.Call) and (dotted(e.func) or "").split(".")[-1] == "sigmoid":
+            return S
+        if isinstance(e, ast.Name):
+            ds = ld.defs.get(e.id, [])
+            if len(ds) == 1:
+                return ev(ds[0], depth + 1)
+            return None
+        if isinstance(e, ast.BinOp):
+            l, r = ev(e.left, depth + 1), ev(e.right, depth + 1)
+            if l is None or r is None:
+                return None
+            if isinstance(e.op, ast.Add):
+                return l + r
+            if isinstance(e.op, ast.Sub):
+                return l - r
+            if isinstance(e.op, ast.Mult):
+                return l * r
+            return None
+        if isinstance(e, ast.UnaryOp) and isinstance(e.op, ast.USub):
+            v = ev(e.operand, depth + 1)
+            return None if v is None else Dim.const(0) - v
+        if isinstance(e, ast.Call) and (dotted(e.func) or "").split(".")[-1] in ("addcmul", "add", "mul") :
+            return None
+        return None
+
+    out: list[Ob] = []
+    for r in rets:
+        p = ev(r)
+        if p is None:
+            out.append(unres("R5f", q, "range", f"forward returns `{unparse(r)[:60]}`: not an affine expression of sigmoid(x), vmin, vmax the rule can evaluate", fwd.loc))
+            continue
+        lo = p.subst({"S": Dim.const(0)}) if hasattr(p, "subst") else None
+        hi = p.subst({"S": Dim.const(1)}) if hasattr(p, "subst") else None
+        quad = p.subst({"S": Dim.const(2)}) if hasattr(p, "subst") else None
+        if lo is None or hi is None or quad is None:
+            out.append(unres("R5f", q, "range", "polynomial substitution unavailable", fwd.loc))
+            continue
+        affine = (quad - hi) == (hi - lo)
+        if not affine:
+            out.append(unres("R5f", q, "range", f"forward is not affine in sigmoid(x): {p!r}", fwd.loc))
+        elif lo == VMIN and hi == VMAX:
+            out.append(ok("R5f", q, "range", f"{p!r}: sigmoid 0 -> vmin, sigmoid 1 -> vmax", fwd.loc))
+        else:
+            out.append(viol("R5f", q, "range", f"forward computes {p!r} (S = sigmoid(x)): its range runs from {lo!r} to {hi!r}, not from vmin to vmax as the symbolic operator documents", fwd.loc))
     return out
